@@ -204,6 +204,10 @@ def _accepting_paths(ctx, s, ver, sign, an, eacc, templated):
         s.add("S-SIBLING", sign, "signer-id-is-digest", "id=sha256(signable)", sign.sp, PROVED if (okid and okm) else VIOLATION,
               "the signer's id is the digest and the signed message is that same digest" if (okid and okm) else
               "sign_new: id from digest=%s, message from digest=%s" % (okid, okm))
+    # the accessors verify reads through take the layout's widths (a content length read as u16 hashes a truncated content)
+    from . import layout
+    ev_fns = [f for f in ctx.F.fns.values() if f.kind != "Closure" and f.nice.startswith("pocket_types::Event::")]
+    layout.reader_width_agreement(ctx, s, sorted(ev_fns, key=lambda f: f.nice), "event", spec={(144, 144): 4})
     # ---------------------------------------------------------------- 3. escaper
     escaping.escape_table(ctx, s)
     escaping.writer_escapes(ctx, s, "pocket_types::Tags::as_json")
